@@ -253,6 +253,14 @@ def run_case(case, seed):
                     for q_ in range(len(ref_)):
                         fa, fb = dn(s0_[q_]).reshape(-1) @ P, dn(ref_[q_]).reshape(-1) @ P
                         r.close(key + ':rcond-zero:fitted-values', fa, fb, 1e-6, 'rcond=%r vs rcond=1e-15, row %d' % (z_, q_))
+        # right-hand sides in tiny units (x 1e-9): the fit is linear in y, a small right-hand side is not a zero right-hand side
+        with r.op(key + ':tiny-units:call'):
+            with quiet():
+                s9_ = reg.arr(x, 1e-9 * y, basis, guess, repeats=2, rcond=1e-15, progress=False)
+            if isinstance(s9_, list) and len(s9_) == len(ref_) and all(meta_problem(t_) is None for t_ in s9_):
+                for q_ in range(len(ref_)):
+                    fa, fb = dn(s9_[q_]).reshape(-1) @ P / 1e-9, dn(ref_[q_]).reshape(-1) @ P
+                    r.close(key + ':tiny-units:fitted-values', fa, fb, 1e-6, 'y scaled by 1e-9, row %d' % q_)
         r.true(key + ':guess-unchanged', unchanged(guess, sG), 'initial guess modified')
         r.true(key + ':data-unchanged', np.array_equal(x, x0) and np.array_equal(y, y0))
     return r
